@@ -79,7 +79,8 @@ THEOREMS = ["ElfioVerif.C16.fail_sticky", "ElfioVerif.C16.write_fail_sticky", "E
             "ElfioVerif.runStreamOps_fail_of_short", "ElfioVerif.runStreamOps_withBudget",
             # buffered stream (std::ofstream / std::filebuf), Props/C16Buffered.lean + Model/BStream.lean
             "ElfioVerif.OStream.write_append", "ElfioVerif.settled_runStreamOpsB",
-            "ElfioVerif.C16.buffered_sim", "ElfioVerif.C16.buffered_sim_fail", "ElfioVerif.C16.fail_sticky_buffered",
+            "ElfioVerif.C16.buffered_sim", "ElfioVerif.C16.buffered_sim_fail", "ElfioVerif.C16.buffered_fail_early",
+            "ElfioVerif.C16.fail_sticky_buffered",
             "ElfioVerif.C16.ops_fail_buffered", "ElfioVerif.C16.ops_ok_buffered",
             "ElfioVerif.C16.save_fail_buffered", "ElfioVerif.C16.save_fail_buffered_all",
             "ElfioVerif.C16.save_ok_buffered", "ElfioVerif.C16.buffered_delay_witness"]
